@@ -87,6 +87,9 @@ class C07(Spec):
                 continue
             if not user and len(set(r[0])) != len(r[0]):
                 continue      # aliasing src_indices (an input reading one source entry twice): see FINDINGS.md
+            if not user and where != 'connect' and fl is True and ix['t'] == 'slice' and len(shape) > 1 \
+                    and ix['v'][0] is None and ix['v'][1] is None and ix['v'][2] in (None, 1):
+                continue      # such a model cannot be set up: known finding of C04 (props/C04/FINDINGS.md, 2)
             return {'where': where, 'flat': fl, 'rflat': rflat, 'ix': ix, 'in_shape': list(shape),
                     'out_shape': r[1]}
         return None
